@@ -31,6 +31,7 @@ def modes : List Mode := []
   ++ [Drv.CratesV1Explore.mode]
   ++ [Drv.T2.mode]
   ++ [Drv.TableApi.mode]
+  ++ Drv.C15.modes
 
 def dispatch (line : String) : String :=
   match tokens line with
